@@ -1146,9 +1146,10 @@ def sun_compact(U, rtol=1e-12, atol=1e-12):
         raise ValueError("The input matrix is not unitary.")
 
     # if Unitary, factorize into phase times Special Unitary
-    SU = U.copy()
+    # (complex: the n-th root of a negative determinant of a real matrix is not real)
+    SU = U.astype(complex)
     if not np.isclose(det, 1, rtol=rtol, atol=atol):
-        SU *= det ** (-1 / n)
+        SU *= complex(det) ** (-1 / n)
         global_phase = np.angle(det)
 
     # Decompose the matrix
